@@ -13,6 +13,15 @@ Theorem C15_exactly_once_right_after :
     evicting sh = false -> fin_ok false sh fspec0 sts (run_finalize_segs sh sts) = 0.
 Proof. intros sh sts H. exact (FinalizeLaws.finalize_meets_spec false sh (or_intror H) sts zstate0 fspec0 (FinalizeLaws.sinv0 sh)). Qed.
 
+(* the same whether or not the input ever held the observer (never(), an already terminated subject) *)
+Theorem C15_exactly_once_any_input :
+  forall (connected : bool) (sh : fshape) (sts : list zstim),
+    evicting sh = false -> fin_ok false sh (fspec1 connected) sts (run_finalize_segs_from connected sh sts) = 0.
+Proof.
+  intros c sh sts H.
+  exact (FinalizeLaws.finalize_meets_spec false sh (or_intror H) sts (zstate1 c) (fspec1 c) (FinalizeLaws.sinv1 c sh)).
+Qed.
+
 (* The excluded shape — a subject as input and a take(n) after the operator — is the recorded
    finding C15-downstream-finished: once the take has completed, the subject drops the operator's
    observer unseen, and the subject's own terminal is not followed by the callback.  The full
@@ -60,6 +69,8 @@ Proof. exact FinalizeLaws.race_at_most_once. Qed.
 
 Check C15_exactly_once_right_after : forall sh sts,
   evicting sh = false -> fin_ok false sh fspec0 sts (run_finalize_segs sh sts) = 0.
+Check C15_exactly_once_any_input : forall connected sh sts,
+  evicting sh = false -> fin_ok false sh (fspec1 connected) sts (run_finalize_segs_from connected sh sts) = 0.
 Check C15_exactly_once_outside_gap : forall sh sts, fin_ok true sh fspec0 sts (run_finalize_segs sh sts) = 0.
 Check C15_downstream_finished_refuted :
   exists sts, fin_ok false (FTakeAfter true 1) fspec0 sts (run_finalize_segs (FTakeAfter true 1) sts) = 1.
@@ -74,6 +85,7 @@ Check C15_race_once : forall a t b, (forall t', ~ In (RTake t') a) ->
 Check C15_race_at_most_once : forall sched cell, rcalls (rrun cell sched) <= 1.
 
 Print Assumptions C15_exactly_once_right_after.
+Print Assumptions C15_exactly_once_any_input.
 Print Assumptions C15_exactly_once_outside_gap.
 Print Assumptions C15_downstream_finished_refuted.
 Print Assumptions C15_at_most_once.
@@ -119,3 +131,7 @@ Example C15_example_gap :
   run_finalize_segs (FTakeAfter true 1) [ZSrc (Next (VZ 1)); ZSrc Done; ZUnsub] = [[ZOut (Next (VZ 1)); ZOut Done]; []; [ZCall]]
   /\ run_finalize_segs (FTakeAfter false 1) [ZSrc (Next (VZ 1)); ZSrc Done; ZUnsub] = [[ZOut (Next (VZ 1)); ZOut Done]; [ZCall]; []].
 Proof. vm_compute. split; reflexivity. Qed.
+
+Example C15_example_never :
+  run_finalize_segs_from false FPlain [ZUnsub; ZUnsub] = [[ZCall]; []].
+Proof. vm_compute. reflexivity. Qed.
